@@ -191,6 +191,38 @@ theorem RO.activeProcs (u : Nat) : RO (activeProcs u) := by unfold Circus.Core.a
 @[aesop safe apply (rule_sets := [ReadOnly])]
 theorem RO.getWatcherCmd (n : JVal) : RO (getWatcherCmd n) := by unfold Circus.Core.getWatcherCmd; ro
 
+theorem Kernel.children_fst (k : Kernel) (pid : Nat) (r : Bool) : (k.children pid r).1 = k.tick := by
+  unfold Kernel.children
+  dsimp only
+  split
+  · rfl
+  · split
+    · rfl
+    · split <;> rfl
+
+theorem RO.kChildren (pid : Nat) (r : Bool) : RO (kChildren pid r) :=
+  ⟨fun s => ⟨1, by show ({ s with k := (s.k.children pid r).1 } : State) = _; rw [Kernel.children_fst]; rfl⟩,
+   fun _ _ _ => rfl⟩
+attribute [aesop safe apply (rule_sets := [ReadOnly])] RO.kChildren
+
+@[aesop safe apply (rule_sets := [ReadOnly])]
+theorem RO.procInfo (pid : Nat) : RO (procInfo pid) := by unfold Circus.Core.procInfo; ro
+@[aesop safe apply (rule_sets := [ReadOnly])]
+theorem RO.watcherInfo (u : Nat) : RO (watcherInfo u) := by unfold Circus.Core.watcherInfo; ro
+@[aesop safe apply (rule_sets := [ReadOnly])]
+theorem RO.statsProc (w : Watcher) (p : Int) : RO (statsProc w p) := by unfold Circus.Core.statsProc; ro
+@[aesop safe apply (rule_sets := [ReadOnly])]
+theorem RO.statsWatcher (u : Nat) (n : JVal) : RO (statsWatcher u n) := by unfold Circus.Core.statsWatcher; ro
+@[aesop safe apply (rule_sets := [ReadOnly])]
+theorem RO.statsAllLoop (ws : List Watcher) (parts : List (String × String)) : RO (statsAllLoop ws parts) := by
+  induction ws generalizing parts with
+  | nil => unfold Circus.Core.statsAllLoop; ro
+  | cons w ws ih => unfold Circus.Core.statsAllLoop; ro
+@[aesop safe apply (rule_sets := [ReadOnly])]
+theorem RO.statsAll : RO statsAll := by unfold Circus.Core.statsAll; ro
+@[aesop safe apply (rule_sets := [ReadOnly])]
+theorem RO.execStats (props : JVal) : RO (execStats props) := by unfold Circus.Core.execStats; ro
+
 theorem RO.execReadOnly (cmd : String) (props : JVal) : RO (execReadOnly cmd props) := by
   unfold Circus.Core.execReadOnly
   split
@@ -205,6 +237,7 @@ theorem RO.execReadOnly (cmd : String) (props : JVal) : RO (execReadOnly cmd pro
     · ro
   · exact ⟨fun s => Ticks.refl s, fun _ _ _ => rfl⟩
   · ro
+  · exact RO.execStats props
   · ro
 
 /-- never a future: the command is answered from the value it returns -/
@@ -222,6 +255,22 @@ theorem NoFut.unmodelled : NoFut (pure (.ok .unmodelled)) := fun _ _ _ h => by c
 
 attribute [aesop safe apply (rule_sets := [ReadOnly])] NoFut.bind NoFut.ite NoFut.error NoFut.value NoFut.status
   NoFut.unmodelled
+
+theorem NoFut.statsTail (ok : Bool) (b : String) : NoFut (pure (statsTail ok b)) := by
+  intro s tid x h
+  unfold Circus.Core.statsTail at h
+  cases ok <;> cases h
+attribute [aesop safe apply (rule_sets := [ReadOnly])] NoFut.statsTail
+@[aesop safe apply (rule_sets := [ReadOnly])]
+theorem NoFut.statsProc (w : Watcher) (p : Int) : NoFut (statsProc w p) := by unfold Circus.Core.statsProc; ro
+@[aesop safe apply (rule_sets := [ReadOnly])]
+theorem NoFut.statsWatcher (u : Nat) (n : JVal) : NoFut (statsWatcher u n) := by unfold Circus.Core.statsWatcher; ro
+@[aesop safe apply (rule_sets := [ReadOnly])]
+theorem NoFut.statsAll : NoFut statsAll := by unfold Circus.Core.statsAll; ro
+@[aesop safe apply (rule_sets := [ReadOnly])]
+theorem NoFut.execStats (props : JVal) : NoFut (execStats props) := by
+  unfold Circus.Core.execStats
+  ro
 
 theorem NoFut.execReadOnly (cmd : String) (props : JVal) : NoFut (execReadOnly cmd props) := by
   unfold Circus.Core.execReadOnly
